@@ -11,8 +11,8 @@ CHECK = {
            're-entered by replaying its shortest history on a fresh table; distinct_nontrivial = states in which at least one entry '
            'is displaced from its home slot; "light" instances: the per-state oracle reads the slots through the white-box view only and get/mem are explicit operations, the key last asked for and the slot it sat in at that moment are part of the state key, so no library call of the oracle comes between two operations and get(k1) ; set(k2) ; get(k1) is a path of its own (hidden cursors, memos and scratch state survive from one operation to the next); ladders cover size classes 23..197 with enumerated insertion/removal orders'),
   'bounds': {
-    'quick': 'Int keys: 6-key universe to fixpoint (gcc) and 5-key (ASan+UBSan); String keys: 5-key universe; Probe values 5 keys; ladders to 120 keys x 8 strides x 16 order pairs',
-    'thorough': 'Int keys: 8-key universe (global deadline 14 min; the evidence says whether the fixpoint was reached), 7-key under ASan; String keys 7; ladders to 220 keys',
+    'quick': 'Int keys: 6-key universe to fixpoint (gcc) and 5-key (ASan+UBSan); String keys: 5-key universe; Probe values 5 keys; ladders to 120 keys x 8 strides x 16 order pairs; *-sfx1 instances: the same alphabet with the last operation of the history in the state key (small universes)',
+    'thorough': 'Int keys: 8-key universe (global deadline 14 min; the evidence says whether the fixpoint was reached), 7-key under ASan; String keys 7; ladders to 220 keys; *-sfx1 / *-sfx2 instances: the last one / two operations of the history in the state key',
   },
   'assumptions': [
     'values outside the key universe are represented by the universe (keys are chosen to collide; behaviour depends on keys only through hash and eq)',
@@ -30,6 +30,8 @@ CHECK = {
       T('probe4-two', 'base', 'keys=probe', 'vals=probe', 'nkeys=4', 'two=1', 'depth=6'), T('str3-two-asan', 'asan', 'keys=str', 'nkeys=3', 'two=1', 'depth=5'),
       # history feature in the state key: the largest slot count A went through (derived fields surviving an assign / shrink)
       T('int3-two-hw', 'base', 'keys=int', 'nkeys=3', 'two=1', 'hwkey=1', 'depth=6'),
+      # the last operation of the history as part of the state key (lib/vf_bfs.h suffix=K): hidden state the harness does not know about
+      T('int3-two-sfx1', 'base', 'keys=int', 'nkeys=3', 'two=1', 'suffix=1', 'depth=6'),
       T('int4-light', 'base', 'keys=int', 'nkeys=4', 'light=1'), T('str4-light', 'base', 'keys=str', 'nkeys=4', 'light=1', 'alias=0'),
       T('probe4-light-asan', 'asan', 'keys=probe', 'vals=probe', 'nkeys=4', 'light=1', 'alias=0'),
       T('ladder', 'base', 'mode=ladder', 'ladder_n=120'),
@@ -43,6 +45,8 @@ CHECK = {
       T('probe7', 'base', 'keys=probe', 'vals=probe', 'nkeys=7'),
       T('intprobe7', 'base', 'keys=int', 'vals=probe', 'nkeys=7'), T('probeint6-asan', 'asan', 'keys=probe', 'vals=int', 'nkeys=6'),
       T('probe4-two', 'base', 'keys=probe', 'vals=probe', 'nkeys=4', 'two=1', 'depth=9'), T('str4-two-asan', 'asan', 'keys=str', 'nkeys=4', 'two=1', 'depth=7'),
+      T('int3-two-sfx2', 'base', 'keys=int', 'nkeys=3', 'two=1', 'suffix=2', 'depth=6'), T('str3-two-sfx1-asan', 'asan', 'keys=str', 'nkeys=3', 'two=1', 'suffix=1', 'depth=6'),
+      T('int4-two-sfx1-d7', 'base', 'keys=int', 'nkeys=4', 'two=1', 'suffix=1', 'depth=7'), T('int5-light-sfx1-d7', 'base', 'keys=int', 'nkeys=5', 'suffix=1', 'light=1', 'depth=7'),
       T('int4-two-hw', 'base', 'keys=int', 'nkeys=4', 'two=1', 'hwkey=1', 'depth=8'), T('probe3-two-hw-asan', 'asan', 'keys=probe', 'vals=probe', 'nkeys=3', 'two=1', 'hwkey=1', 'depth=7'),
       T('int5-light', 'base', 'keys=int', 'nkeys=5', 'light=1'), T('int6-light', 'base', 'keys=int', 'nkeys=6', 'light=1', 'alias=0', 'deadline=800'), T('str5-light', 'base', 'keys=str', 'nkeys=5', 'light=1', 'alias=0'),
       T('probe4-light-asan', 'asan', 'keys=probe', 'vals=probe', 'nkeys=4', 'light=1'),
